@@ -3,10 +3,11 @@ specification stream (catalogue first, then seeded random), real generator run +
 generated classes, the model driver loaded with the same forest, three-way comparison helpers."""
 from __future__ import annotations
 
+import re
 import os
 import traceback
 
-from . import common, genlib, specgen
+from . import pyir, common, genlib, specgen
 from .common import Ctx
 
 GEN_FILES = [
@@ -157,7 +158,69 @@ def _load(ctx: Ctx, case: Case, prop: str):
                           dict(case.replay_doc(), traceback=traceback.format_exc()[-1500:]), found_input=(prop == "C18"))
             return False
         case.info = specgen.SpecInfo(case.files, case.run)
+        ir_tie(ctx, case)
     return True
+
+
+_INT_RE = re.compile(r"-?\d+")
+
+
+def ir_tie(ctx: Ctx, case: Case):
+    """The structural tie (harness/pyir.py): the statement groups of every emitted serialize / deserialize / __init__ against
+    the instruction lists of the model's `compile`.  Never an alarm by itself: a specification on which they differ gets a
+    five-fold value / byte budget (`ctx.case_boost`) and the integers occurring in the differing instructions as hints for
+    the value generator (a changed limit, size or count is then probed on both sides)."""
+    ctx.case_boost = 1
+    case.ir_differs = []
+    classes = case.model.split()[2:]
+    if not classes:
+        return
+    answers = ctx.driver.ask(["gen ir " + cn for cn in classes])
+    if not answers[0].startswith("ok"):
+        ctx.count("ir_tie.driver_without_ir")
+        return
+    texts = [t.decode("utf-8") if isinstance(t, bytes) else t for t in case.run.file_tree.values()]
+
+    def text_of(cn):
+        head = cn.split(".")[0]
+        for t in texts:
+            if f"\nclass {head}:" in t or f"\nclass {head}(" in t:
+                return t
+        return None
+
+    def enum_value(en, mem):
+        return int(getattr(case.run.get_class(en), mem))
+
+    hints = set()
+    for cn, model in zip(classes, answers):
+        try:
+            t = text_of(cn)
+            real = "ok " + pyir.class_ir(t, cn, enum_value) if t is not None else "unrecognised: no module defines " + cn
+        except pyir.Unrecognised as e:
+            real = "unrecognised: " + str(e)
+        except Exception as e:  # noqa: BLE001 - the emitted text is under test, the recogniser must not take the check down
+            real = f"unrecognised: {type(e).__name__}: {e}"
+        if real == model:
+            ctx.count("ir_tie.classes_equal")
+            continue
+        ctx.count("ir_tie.classes_unrecognised" if real.startswith("unrecognised") else "ir_tie.classes_differing")
+        case.ir_differs.append(cn)
+        a, b = model.split(" ;; "), real.split(" ;; ")
+        parts = [(x, y) for x, y in zip(a, b) if x != y] if len(a) == len(b) else [(model, real)]
+        for x, y in parts:
+            xs, ys = x.split(), y.split()
+            for tok in set(xs) ^ set(ys):
+                for m in _INT_RE.findall(tok):
+                    if abs(int(m)) <= 5_000_000_000:
+                        hints.add(abs(int(m)))
+        samples = ctx.extra.setdefault("ir_tie_differences", [])
+        if len(samples) < 4:
+            x, y = parts[0]
+            samples.append({"spec": case.tag, "class": cn, "model": x[:600], "emitted": y[:600]})
+    ctx.count("ir_tie.specs_equal" if not case.ir_differs else "ir_tie.specs_differing")
+    if case.ir_differs:
+        ctx.case_boost = 5
+        case.info.hints = sorted(hints)
 
 
 def close_case(case: Case):
